@@ -10,7 +10,7 @@ cp $OUT/demo$K.py $WT/_demo.py
 if git -C "$WT" apply --exclude=_demo.py "$OUT/patch$K.diff"; then echo "patch applied"; else echo "PATCH DOES NOT APPLY"; git -C /repo worktree remove --force "$WT"; exit 3; fi
 ( cd $WT && PYTHONPATH=$WT timeout 900 /venv/bin/python _demo.py >/tmp/scratch/demo_patched.log 2>&1 ); echo "demo on patched tree: exit=$?"; tail -3 /tmp/scratch/demo_patched.log | cut -c1-200
 if [ -n "$TESTS" ]; then ( cd $WT && PYTHONPATH=$WT timeout 3000 /venv/bin/python -m pytest -q -p no:cacheprovider --timeout=900 $TESTS 2>&1 | tail -3 ); fi
-VERIF_REPO="$WT" /venv/bin/python ${VERIF_DIR:-/verif}/run_check.py "$PROP" --tier quick 2>&1 | grep -E "VIOLATION|SUMMARY|HARNESS|key=" | cut -c1-260 | head -6
+VERIF_EVIDENCE_DIR=/tmp/scratch/evidence_scratch VERIF_REPO="$WT" /venv/bin/python ${VERIF_DIR:-/verif}/run_check.py "$PROP" --tier quick 2>&1 | grep -E "VIOLATION|SUMMARY|HARNESS|key=" | cut -c1-260 | head -6
 echo "check exit=${PIPESTATUS[0]}"
 rm -f $WT/_demo.py
 git -C /repo worktree remove --force "$WT"
